@@ -219,7 +219,34 @@ async fn good_block(ctx: &mut Ctx, rng: &mut SRng, sk: &SecretKey, thorough_big:
     let mut block_events = 0;
     let mut ok_some = 0;
     let mut completed_at: Option<usize> = None;
+    // a third of the runs mix both ingest paths for the same block: a few of its shreds (never enough to
+    // complete a slice) are also filed through the repair path, before, between and after the deliveries
+    let mix_repair = rng.random_bool(0.33);
+    let mut repair_filed = 0usize;
     for (step, &(s, i)) in items.iter().enumerate() {
+        if mix_repair && repair_filed < 20 && rng.random_bool(0.15) {
+            let (rs, ri) = (rng.random_range(0..nslices), rng.random_range(0..64usize));
+            let r = guarded_async(tap.bs.add_shred_from_repair(to_bid(&(slot, blk.hash)).1, blk.shreds[rs][ri].clone())).await;
+            repair_filed += 1;
+            ctx.count("good-blocks:shred-filed-through-repair-path");
+            match r {
+                Err(p) => {
+                    ctx.violation(format!("C13 blockstore {}", p.sig()), format!("{} at {}:{}", p.msg, p.file, p.line), wit(json!({"step": step, "path": "repair"})));
+                    return;
+                }
+                Ok(Err(AddShredError::Equivocation | AddShredError::InvalidShred)) => {
+                    ctx.violation("C13 correct leader's block flagged invalid", "genuine shred through the repair path", wit(json!({"step": step, "path": "repair"})));
+                    return;
+                }
+                Ok(_) => {}
+            }
+            // a partial repair never completes anything and must not disturb dissemination's announcements
+            let evs = tap.drain();
+            if evs.iter().any(|e| matches!(e, BlockstoreEvent::InvalidBlock(_))) {
+                ctx.violation("C13 correct leader's block flagged invalid", "InvalidBlock after a genuine shred through the repair path", wit(json!({"step": step, "path": "repair"})));
+                return;
+            }
+        }
         ctx.eval();
         let complete_before = have.iter().all(|h| h.len() >= 32);
         let dup = have[s].contains(&i);
@@ -291,7 +318,7 @@ async fn good_block(ctx: &mut Ctx, rng: &mut SRng, sk: &SecretKey, thorough_big:
         }
     }
     ctx.count("good-blocks");
-    ctx.distinct(format!("good:slices{}:{}:{}:{:x}", nslices.min(7), order, if switch { "switch" } else { "noswitch" }, crate::common::fnv(&ser_plan(&items)) & 0xff));
+    ctx.distinct(format!("good:slices{}:{}:{}:{}:{:x}", nslices.min(7), order, if switch { "switch" } else { "noswitch" }, if repair_filed > 0 { "mixed-paths" } else { "dissemination" }, crate::common::fnv(&ser_plan(&items)) & 0xff));
     if !first_seen || block_events != 1 || ok_some != 1 {
         ctx.violation("C13 block not announced exactly once", format!("FirstShred seen {first_seen}, Block events {block_events}, Ok(Some) returns {ok_some}"), wit(json!(null)));
         return;
